@@ -81,17 +81,17 @@ func New(o Options) (*Harness, error) {
 type Mode string
 
 const (
-	Accept      Mode = "accept"
-	RefuseDial  Mode = "refuse"      // Dial returns an error
-	KickLogin   Mode = "kick-login"  // Disconnect instead of login success
-	KickConfig  Mode = "kick-config" // (>=764) Disconnect in configuration
-	KickPlay    Mode = "kick-play"   // Disconnect right after JoinGame
-	HangLogin   Mode = "hang-login"  // never answers the login
-	CloseLogin  Mode = "close-login" // closes after reading the login
-	HangConfig  Mode = "hang-config" // (>=764) never finishes configuration
-	OnlineMode  Mode = "online"      // sends an encryption request (misconfigured backend)
-	NoForwarding Mode = "no-forwarding-request" // velocity mode: login success without asking for forwarding
-	CloseHandshake Mode = "close-handshake" // closes after reading the handshake, before the login start is answered or even read
+	Accept         Mode = "accept"
+	RefuseDial     Mode = "refuse"                // Dial returns an error
+	KickLogin      Mode = "kick-login"            // Disconnect instead of login success
+	KickConfig     Mode = "kick-config"           // (>=764) Disconnect in configuration
+	KickPlay       Mode = "kick-play"             // Disconnect right after JoinGame
+	HangLogin      Mode = "hang-login"            // never answers the login
+	CloseLogin     Mode = "close-login"           // closes after reading the login
+	HangConfig     Mode = "hang-config"           // (>=764) never finishes configuration
+	OnlineMode     Mode = "online"                // sends an encryption request (misconfigured backend)
+	NoForwarding   Mode = "no-forwarding-request" // velocity mode: login success without asking for forwarding
+	CloseHandshake Mode = "close-handshake"       // closes after reading the handshake, before the login start is answered or even read
 )
 
 // Behavior scripts one backend connection.
@@ -109,6 +109,9 @@ type Behavior struct {
 	KickReason string
 	// KickDelay (KickPlay only): wait this long after JoinGame before kicking (stimulus).
 	KickDelay time.Duration
+	// KickKeepOpen: after sending a Disconnect the backend does NOT close its end; it is up
+	// to the proxy to close the connection of a backend that kicked the player.
+	KickKeepOpen bool
 	// DialDelay makes Dial itself slow (a backend that is slow at the connect stage); the
 	// dial gives up early if the proxy's context ends.
 	DialDelay time.Duration
@@ -137,19 +140,19 @@ type Backend struct {
 // BackendConn is one accepted connection on a fake backend.
 type BackendConn struct {
 	*Peer
-	B         *Backend
-	N         int
-	Behavior  Behavior
-	DialAt    int64
-	mu        sync.Mutex
-	Handshake *packet.Handshake
-	Login     *packet.ServerLogin
-	LoginAt   int64
-	JoinedAt  int64 // JoinGame sent
+	B                *Backend
+	N                int
+	Behavior         Behavior
+	DialAt           int64
+	mu               sync.Mutex
+	Handshake        *packet.Handshake
+	Login            *packet.ServerLogin
+	LoginAt          int64
+	JoinedAt         int64 // JoinGame sent
 	VelocityResponse *packet.LoginPluginResponse
-	joined    chan struct{}
-	loginSeen chan struct{}
-	EntityID  int
+	joined           chan struct{}
+	loginSeen        chan struct{}
+	EntityID         int
 	// DialCtx is the context the proxy passed to Dial (it derives from the context given to
 	// ConnectionRequest.Connect, so values a monitor put there identify the request).
 	DialCtx context.Context
@@ -306,6 +309,9 @@ func (bc *BackendConn) kick(st states.State) {
 	}
 	bc.stamp(&bc.FailAt)
 	_ = bc.Send(packet.NewDisconnect(&component.Text{Content: reason}, bc.Proto, st))
+	if bc.Behavior.KickKeepOpen {
+		return
+	}
 	bc.Close()
 }
 
